@@ -96,4 +96,17 @@ theorem lookup_append_some {α β} [BEq α] (l : List (α × β)) (k a : α) (b 
     · simp only [hx] at h; exact ih h
     · simpa [hx] using h
 
+theorem lower_invariants :
+    (∀ c : UInt8, isLetter (asciiLower c) = isLetter c) ∧ (∀ c : UInt8, schemeRest (asciiLower c) = schemeRest c) := by
+  constructor <;> (apply all256; decide +kernel)
+
+theorem normalize_lower (s : Bytes) : normalizeScheme (lowerBytes s) = normalizeScheme s := by
+  cases s with
+  | nil => rfl
+  | cons c r =>
+    have h := lowerBytes_idem (c :: r)
+    simp only [lowerBytes, List.map_cons] at h ⊢
+    simp only [normalizeScheme, lower_invariants.1, List.all_map, Function.comp_def, lower_invariants.2]
+    simp only [lowerBytes, List.map_cons, h]
+
 end ZapVerif.OpenBuild
